@@ -63,38 +63,55 @@ fn main() {
                 lb = lb.dot_matches_new_line(b);
             }
             let s3 = s2.clone();
-            lb = lb.lrpar_config(move |mut ctp| {
-                ctp = ctp
-                    .grammar_path(&yp2)
-                    .output_path(&yout2)
+            let legacy = s2["legacy_api"].as_bool() == Some(true);
+            let (yp3, yout3) = (yp2.clone(), yout2.clone());
+            macro_rules! cfg_parser {
+                ($ctp:ident, $yp:expr, $yout:expr, $s:expr) => {{
+                $ctp = $ctp
+                    .grammar_path(&$yp)
+                    .output_path(&$yout)
                     .mod_name(ymod_static)
                     .warnings_are_errors(false)
                     .show_warnings(false)
                     .error_on_conflicts(false);
-                if s3["yacckind_in_header"].as_bool() != Some(true) {
-                    ctp = ctp.yacckind(yk);
+                if $s["yacckind_in_header"].as_bool() != Some(true) {
+                    $ctp = $ctp.yacckind(yk);
                 }
-                match s3["builder_recoverer"].as_str() {
-                    Some("None") => ctp = ctp.recoverer(RecoveryKind::None),
-                    Some("CPCTPlus") => ctp = ctp.recoverer(RecoveryKind::CPCTPlus),
+                match $s["builder_recoverer"].as_str() {
+                    Some("None") => $ctp = $ctp.recoverer(RecoveryKind::None),
+                    Some("CPCTPlus") => $ctp = $ctp.recoverer(RecoveryKind::CPCTPlus),
                     _ => {}
                 }
-                match s3["serialisation"].as_str() {
-                    Some("Fixed") => ctp = ctp.serialisation_format(lrpar::ctbuilder::SerialisationFormat::FixedSizeInteger),
-                    Some("Variable") => ctp = ctp.serialisation_format(lrpar::ctbuilder::SerialisationFormat::VariableSizedInteger),
+                match $s["serialisation"].as_str() {
+                    Some("Fixed") => $ctp = $ctp.serialisation_format(lrpar::ctbuilder::SerialisationFormat::FixedSizeInteger),
+                    Some("Variable") => $ctp = $ctp.serialisation_format(lrpar::ctbuilder::SerialisationFormat::VariableSizedInteger),
                     _ => {}
                 }
-                match s3["edition"].as_u64() {
-                    Some(2015) => ctp = ctp.rust_edition(lrpar::RustEdition::Rust2015),
-                    Some(2018) => ctp = ctp.rust_edition(lrpar::RustEdition::Rust2018),
-                    Some(2021) => ctp = ctp.rust_edition(lrpar::RustEdition::Rust2021),
+                match $s["edition"].as_u64() {
+                    Some(2015) => $ctp = $ctp.rust_edition(lrpar::RustEdition::Rust2015),
+                    Some(2018) => $ctp = $ctp.rust_edition(lrpar::RustEdition::Rust2018),
+                    Some(2021) => $ctp = $ctp.rust_edition(lrpar::RustEdition::Rust2021),
                     _ => {}
                 }
-                if s3["visibility"].as_str() == Some("Public") {
-                    ctp = ctp.visibility(lrpar::Visibility::Public);
+                if $s["visibility"].as_str() == Some("Public") {
+                    $ctp = $ctp.visibility(lrpar::Visibility::Public);
                 }
-                ctp
-            });
+                $ctp
+            }};
+            }
+            if legacy {
+                // the older two-step API (deprecated, still public): process_file on the parser
+                // builder gives the token map, which goes into the lexer builder's process_file
+                #[allow(deprecated)]
+                let map = {
+                    let mut ctp = lrpar::CTParserBuilder::<DefaultLexerTypes<$t>>::new();
+                    let mut ctp = cfg_parser!(ctp, yp3, yout3, s3);
+                    ctp.process_file(&yp3, &yout3).map_err(|e| e.to_string())?
+                };
+                #[allow(deprecated)]
+                return lb.rule_ids_map(map).process_file(&lp, &lout).map(|_| ()).map_err(|e| e.to_string());
+            }
+            lb = lb.lrpar_config(move |mut ctp| cfg_parser!(ctp, yp2, yout2, s3));
             lb.build().map(|_| ()).map_err(|e| e.to_string())
         })
             };
